@@ -6,7 +6,9 @@
 //     from (a successful local copy, or a remote `cat` that reported success);
 //   * every effect is logged in program order: the states a kill can expose are exactly the prefixes of the log.
 //@include path_algebra.rs
-pub struct FileS { pub bytes: Seq<u8>, pub whole: bool }
+pub struct FileS { pub bytes: Seq<u8>, pub whole: bool, pub mtime: int }      // mtime: whole epoch seconds, as meta::mtime_secs reads it (C14)
+pub uninterp spec fn io_ok() -> bool;
+pub open spec fn mkfile(bytes: Seq<u8>, whole: bool, mtime: int) -> FileS { FileS { bytes, whole, mtime } }       // "no injected I/O fault": a hypothesis, never an axiom
 pub enum Eff { Mkdir(PathV), Write(PathV), Rename(PathV, PathV), Unlink(PathV), Touch(PathV) }
 pub struct World { pub files: Map<PathV, FileS>, pub log: Seq<Eff> }
 pub open spec fn ends_with(p: PathV, suf: PathV) -> bool { exists|q: PathV| p == #[trigger] (q + suf) }
@@ -26,7 +28,7 @@ pub fn vfs_copy<P: AsRef<Path>, Q: AsRef<Path>>(from: P, to: Q, Tracked(w): Trac
     ensures
         final(w).log == old(w).log.push(Eff::Write(asp(to))),
         r is Ok ==> old(w).files.contains_key(asp(from)) && r->Ok_0 == old(w).files[asp(from)].bytes.len()
-            && final(w).files == old(w).files.insert(asp(to), FileS { bytes: old(w).files[asp(from)].bytes, whole: true }),
+            && exists|m: int| final(w).files == old(w).files.insert(asp(to), #[trigger] mkfile(old(w).files[asp(from)].bytes, true, m)),
         r is Err ==> same_except(final(w).files, old(w).files, set![asp(to)])
             && (final(w).files.contains_key(asp(to)) ==> !final(w).files[asp(to)].whole),
 { unimplemented!() }
@@ -47,10 +49,16 @@ pub fn vfs_create_dir_all<P: AsRef<Path>>(p: P, Tracked(w): Tracked<&mut World>)
     ensures final(w).files == old(w).files, final(w).log == old(w).log.push(Eff::Mkdir(asp(p))),
 { unimplemented!() }
 
-// meta::set_local_mtime (open without create/truncate + set_modified): changes no byte of any file
+// meta::set_local_mtime (open without create/truncate + set_modified): changes no byte of any file; on success the file's
+// whole-second mtime is max(secs, 0) - what meta::mtime_secs will read back (C14)
+pub open spec fn clamp0(t: int) -> int { if t >= 0 { t } else { 0 } }
 #[verifier::external_body]
 pub fn set_local_mtime(path: &Path, secs: i64, Tracked(w): Tracked<&mut World>) -> (r: std::io::Result<()>)
-    ensures final(w).files == old(w).files, final(w).log == old(w).log.push(Eff::Touch(pv(path))),
+    ensures final(w).log == old(w).log.push(Eff::Touch(pv(path))),
+        r is Ok ==> old(w).files.contains_key(pv(path)) && final(w).files == old(w).files.insert(pv(path),
+            FileS { bytes: old(w).files[pv(path)].bytes, whole: old(w).files[pv(path)].whole, mtime: clamp0(secs as int) }),
+        r is Err ==> final(w).files == old(w).files,
+        (io_ok() && old(w).files.contains_key(pv(path))) ==> r is Ok,
 { unimplemented!() }
 
 #[verifier::external_body]
@@ -72,7 +80,7 @@ pub mod vfs {
         pub fn create<P: AsRef<Path>>(p: P, Tracked(w): Tracked<&mut World>) -> (r: std::io::Result<File>)
             requires is_staging(asp(p)),
             ensures final(w).log == old(w).log.push(Eff::Write(asp(p))),
-                r is Ok ==> r->Ok_0.path() == asp(p) && final(w).files == old(w).files.insert(asp(p), FileS { bytes: Seq::empty(), whole: false }),
+                r is Ok ==> r->Ok_0.path() == asp(p) && exists|m: int| final(w).files == old(w).files.insert(asp(p), #[trigger] mkfile(Seq::empty(), false, m)),
                 r is Err ==> same_except(final(w).files, old(w).files, set![asp(p)]) && (final(w).files.contains_key(asp(p)) ==> !final(w).files[asp(p)].whole),
         { unimplemented!() }
         #[verifier::external_body]
